@@ -9,9 +9,13 @@ CLAIM = {
              "the mesh is transposed to (y, x) by name; (R3) every visited location draws exactly one line on every path except all-null slices, which are skipped before any artist is created; (R4) panels are axs[i, j] with i from the row mapping and j "
              "from the column mapping, created as subplots(sizes[row], sizes[col]) and titled from domains[col][j] / domains[row][i]; (R5) for each mapped property style value and legend key use one index; (R6) the input dataset is never modified; "
              "(R7) init_mapped_dim records a dimension's coordinates only after every re-indexing of the dataset along it, so isel positions and domains / values positions denote the same coordinate; (R8) mask polarity under join_across_missing; "
-             "(R9) histogram density is delegated to np.histogram(bins=self.bins, density=self.bins_density); (R10) without a palette all heat-map panels and the legend share one colour scale; (R11) the automatic hues exclude the sweep's end point whenever the default sweep is a whole number of turns (otherwise the first and last hue coordinate share their colours). (R12) in heat-map mode with unmapped dimensions every aggregate value (None, True, a name, a list) is widened to all unmapped dimensions. Not decided: everything about the drawn values."),
+             "(R9) histogram density is delegated to np.histogram(bins=self.bins, density=self.bins_density); (R10) without a palette all heat-map panels and the legend share one colour scale; (R11) the automatic hues exclude the sweep's end point whenever the default sweep is a whole number of turns (otherwise the first and last hue coordinate share their colours). (R12) in heat-map mode with unmapped dimensions every aggregate value (None, True, a name, a list) is widened to all unmapped dimensions. "
+             "(R13) the x values of a slice are selected per slice whenever x is a data variable, and some definition of them reaches ax.plot both for x a data variable and x a coordinate; (R14) loc = {dimension name: index of the product loop}, names and index ranges appended in lock-step; "
+             "(R15) no look-up keyed by a mapped property (loc[...], ds_loc[...], ', '.join(...)) on a path whose own tests say the property is None; (R16) init_mapped_dim, by truth tables over its path conditions: fused names are stacked iff all components are dimensions and the fused name is not one yet, "
+             "a given value that is no dimension is a constant style (size 1, attribute reset to None), a dimension is mapped (domains recorded, size = their number), custom values stored iff given, defaults otherwise and taken from default_values, every normal path records the resolved attribute; "
+             "(R17) every property whose domains / values / sizes the drawing code reads is initialised by init_mapped_dim on every path through __init__; (B6) builtin calls are given plausible argument kinds. Not decided: everything about the drawn values."),
     "note": "Trusted base: matplotlib slot table; xarray isel / sel / dropna semantics; np.histogram density normalisation for uneven bins.",
-    "technique": "static analysis: role-provenance rules at draw sinks, CFG path rules over the location loop, ordering rule on dataset re-indexing vs coordinate capture, alias/taint no-mutation rule",
+    "technique": "static analysis: role-provenance rules at draw sinks, CFG path rules over the location loop, ordering rule on dataset re-indexing vs coordinate capture, alias/taint no-mutation rule, path-condition truth tables, contradiction rule on None-tested keys",
 }
 EXPLANATION = "Rules of xyzsa/props/plots.py on Infiniplotter.__init__/init_mapped_dim/plot_lines/plot_heatmap plus B4/B5 link rules."
 ASSUMPTIONS = ["matplotlib draws what it is given"]
